@@ -14,9 +14,10 @@ Only property theorems live here (each is audited with `#print axioms`); helper 
 `RuschmSpec/Text.lean`; the model of the Rust lexer and reader is `RuschmModel/{Lex,Read}.lean`.
 -/
 import RuschmProofs.ReadLemmas
+import RuschmProofs.TextSamples
 
 namespace Ruschm.C06
-open Ruschm Ruschm.Lex Ruschm.Text
+open Ruschm Ruschm.Lex Ruschm.Text Ruschm.Text.Samples
 
 /-! ## 1. Atmosphere is skipped -/
 
@@ -268,35 +269,16 @@ theorem layout_invariance (ts : List Token) (l₁ l₂ : List (List Char))
   rw [(lex_render ts l₁ hs h₁).1, (lex_render ts l₂ hs h₂).1]
 
 section Example
-private def sampleToks : List Token :=
-  [.lparen, .ident "a", .period, .prim (.str "x)"), .rparen, .quote, .prim (.int (-5))]
+/- `toksA` = `( a . "x)" ) ' -5` with two quite different layouts (`TextSamples.lean`) -/
+example : interleave toksA layoutA = " (a ;c\n. \"x)\")\t'-5; end".toList := by decide
+example : interleave toksA layoutB = "(\na . \"x)\")'-5".toList := by decide
 
-private def sampleToks_supported : ∀ t ∈ sampleToks, SupportedTok t := by
-  intro t ht
-  simp only [sampleToks, List.mem_cons, List.not_mem_nil, or_false] at ht
-  rcases ht with rfl | rfl | rfl | rfl | rfl | rfl | rfl
-  · trivial
-  · exact Or.inl (by decide)
-  · trivial
-  · trivial
-  · trivial
-  · trivial
-  · show fitsI32 (-5) = true; decide
-
-/-- two quite different ways of writing the same seven tokens -/
-private def layoutA : List (List Char) :=
-  [" ".toList, [], " ;c\n".toList, [' '], [], ['\t'], [], "; end".toList]
-private def layoutB : List (List Char) := [[], ['\n'], [' '], [' '], [], [], [], []]
-
-example : interleave sampleToks layoutA = " (a ;c\n. \"x)\")\t'-5; end".toList := by decide
-example : interleave sampleToks layoutB = "(\na . \"x)\")'-5".toList := by decide
-
-example : (Lex.all " (a ;c\n. \"x)\")\t'-5; end".toList).1.map (·.tok) = sampleToks := by
-  have h := (lex_render sampleToks layoutA sampleToks_supported (by decide)).1
+example : (Lex.all " (a ;c\n. \"x)\")\t'-5; end".toList).1.map (·.tok) = toksA := by
+  have h := (lex_render toksA layoutA toksA_supported (by decide)).1
   exact h
 
-example : (Lex.all "(\na . \"x)\")'-5".toList).1.map (·.tok) = sampleToks := by
-  have h := (lex_render_gaps sampleToks layoutB sampleToks_supported (by decide)).1
+example : (Lex.all "(\na . \"x)\")'-5".toList).1.map (·.tok) = toksA := by
+  have h := (lex_render_gaps toksA layoutB toksA_supported (by decide)).1
   exact h
 end Example
 
@@ -384,25 +366,11 @@ theorem read_render_many (xs : List Syn) (hxs : Syn.SupportedL xs) (layout : Lis
   readAll_render xs hxs layout hl
 
 section Example
-/-- `(a (b . "s") #(1 'c) . d)` -/
-private def sampleSyn : Syn :=
-  .dotted [.atom (.ident "a"), .dotted [.atom (.ident "b")] (.atom (.prim (.str "s"))),
-    .vec [.atom (.prim (.int 1)), .quote (.atom (.ident "c"))]] (.atom (.ident "d"))
-
-private def sampleSyn_supported : sampleSyn.Supported := by
-  simp only [sampleSyn, Syn.Supported, Syn.SupportedL, Syn.isAtomTok, SupportedTok, and_true,
-    true_and, ne_eq, reduceCtorEq, not_false_eq_true, List.cons_ne_self]
-  exact ⟨⟨Or.inl (by decide), Or.inl (by decide), by decide, Or.inl (by decide)⟩,
-    Or.inl (by decide)⟩
-
-private def sampleLayout : List (List Char) :=
-  [[], [], [' '], [], " ;the cdr\n".toList, [' '], [], [' '], [], [' '], [], [], [' '], [' '], [],
-    ['\n']]
-
-example : sampleSyn.render sampleLayout
+/- `synA` = `(a (b . "s") #(1 'c) . d)` (`TextSamples.lean`) -/
+example : synA.render synLayout
     = "(a (b ;the cdr\n. \"s\") #(1 'c) . d)\n".toList := by decide
 
-example : sampleSyn.denote
+example : synA.denote
     = .pair (.sym "a" none)
         (.pair (.pair (.sym "b" none) (.prim (.str "s") none) none)
           (.pair (.vec [.prim (.int 1) none,
@@ -410,8 +378,8 @@ example : sampleSyn.denote
             (.sym "d" none) none) none) none := rfl
 
 example : (Read.all "(a (b ;the cdr\n. \"s\") #(1 'c) . d)\n".toList).1.map Datum.strip
-    = [sampleSyn.denote] := by
-  have h := (read_render sampleSyn sampleSyn_supported sampleLayout (by decide)).1
+    = [synA.denote] := by
+  have h := (read_render synA synA_supported synLayout (by decide)).1
   exact h
 end Example
 
@@ -426,5 +394,81 @@ theorem next_consumes {cs : List Char} {p : Pos} {t : Token} {rest : List Char} 
 theorem lex_total (cs : List Char) (k : Nat) :
     Lex.allAux (cs.length + 1 + k) cs (1, 1) [] = Lex.allAux (cs.length + 1) cs (1, 1) [] :=
   allAux_fuel k (cs.length + 1) cs (1, 1) [] (Nat.lt_succ_self _)
+
+/-! ## Where the full statements fail
+
+Three statements one would like to have are false of the model (and of the Rust code it was
+validated against). Each is kept as a `def …_full : Prop` and refuted by a closed witness; the
+theorems above are the corresponding partial versions, with the weakest side condition found. -/
+
+/-- FULL layout invariance, treating `,` like the other punctuation tokens (it ends by itself,
+whatever follows). -/
+def lex_render_full : Prop :=
+  ∀ (ts : List Token) (layout : List (List Char)), (∀ t ∈ ts, SupportedTok t) →
+    ValidGapsNaive ts layout →
+    (Lex.all (interleave ts layout)).1.map (·.tok) = ts ∧ (Lex.all (interleave ts layout)).2 = none
+
+/-- It fails: a `,` that is the very last character of the text is dropped silently by
+`Lexer::try_next` (the `None => None` arm after `,`). (A second witness: `,` directly followed by
+the identifier `@x` is read as `,@` `x`.) Hence `followOK .unquote` in `ValidLayout`. -/
+theorem lex_render_full_fails : ¬ lex_render_full := by
+  intro h
+  have h1 := (h [.unquote] [[], []] (by intro t ht; simp at ht; subst ht; trivial)
+    ⟨rfl, rfl, rfl⟩).1
+  have h2 : Lex.all (interleave [.unquote] [[], []]) = ([], none) := by
+    simp [interleave, renderTok, Lex.all, Lex.allAux, Lex.next, Lex.skipAtmosphere, Lex.token,
+      Lex.isWs]
+  rw [h2] at h1
+  cases h1
+
+/-- the partial version: `lex_render_gaps` (the only extra condition is the one on `,`) -/
+theorem lex_render_partial (ts : List Token) (layout : List (List Char))
+    (hs : ∀ t ∈ ts, SupportedTok t) (hl : ValidGaps ts layout) :
+    (Lex.all (interleave ts layout)).1.map (·.tok) = ts ∧
+      (Lex.all (interleave ts layout)).2 = none :=
+  lex_render_gaps ts layout hs hl
+
+/-- FULL identifier coverage: every R7RS identifier written without bars. -/
+def lex_one_ident_full : Prop :=
+  ∀ (s rest : List Char) (p : Pos), isR7rsIdent s = true → startsDelim rest = true →
+    Lex.token (s ++ rest) p = .ok (some (.ident (String.ofList s), rest, advs s p))
+
+/-- It fails: after a sign, `.` always starts a number (`Lexer::try_next` tests
+`is_ascii_digit() || '.'`), so `+.a` is a syntax error instead of an identifier; the branch
+`Some('.')` of `percular_identifier` is unreachable for signs. -/
+theorem lex_one_ident_full_fails : ¬ lex_one_ident_full := by
+  intro h
+  have h1 := h "+.a".toList [] (1, 1) (by decide) (by decide)
+  have h2 : Lex.token ("+.a".toList ++ []) (1, 1) = .error (1, 3) := by
+    simp [Lex.token, Lex.number, Lex.takeRun, Lex.real, Lex.isDigit, Lex.testDelimiter,
+      Lex.isDelimiter, Lex.isWs, bind, Except.bind, Except.map, Lex.adv]
+  rw [h2] at h1
+  cases h1
+
+/-- the partial version: `lex_one_ident_plain` -/
+theorem lex_one_ident_partial (s rest : List Char) (p : Pos) (h : isPlainIdent s = true)
+    (hd : startsDelim rest = true) :
+    Lex.token (s ++ rest) p = .ok (some (.ident (String.ofList s), rest, advs s p)) :=
+  lex_one_ident_plain s rest p h hd
+
+/-- FULL "tokens end only at delimiters", without the `#` residue. -/
+def boundaries_at_delimiters_full : Prop :=
+  ∀ (cs : List Char) (p : Pos) (t : Token) (rest : List Char) (p' : Pos),
+    Lex.token cs p = .ok (some (t, rest, p')) →
+    closedTok t = true ∨ cs.head? = some '|' ∨ startsDelim rest = true
+
+/-- It fails: `#t#f` is split into `#t` and `#f` without any delimiter (`end_of_sharp_token`;
+pinned by the Rust test-suite). -/
+theorem boundaries_at_delimiters_full_fails : ¬ boundaries_at_delimiters_full := by
+  intro h
+  have h1 := h "#t#f".toList (1, 1) _ _ _ (lex_one_bool true "#f".toList (1, 1) (by decide))
+  revert h1
+  decide
+
+/-- Not a weakening of anything claimed above, but worth recording: a decimal that starts with
+the dot (R7RS `.5`) is not read at all. -/
+theorem leading_dot_decimal_rejected : Lex.token ".5".toList (1, 1) = .error (1, 2) := by
+  simp [Lex.token, Lex.peculiarIdentifier, Lex.dotSubsequent, Lex.isInitial, Lex.isLetter,
+    Lex.testDelimiter, Lex.isDelimiter, Lex.isWs, bind, Except.bind, Except.map, Lex.adv]
 
 end Ruschm.C06
